@@ -157,6 +157,8 @@ where
         let mut events = vec![EpollEvent::new(EventSet::empty(), 0); EPOLL_EVENTS_LEN];
 
         'epoll: loop {
+            #[cfg(feature = "verif-hooks")]
+            vhost::verif::hit("w.before_wait", &[self.thread_id as u64]);
             let num_events = match self.epoll.wait(-1, &mut events[..]) {
                 Ok(res) => res,
                 Err(e) => {
@@ -174,6 +176,12 @@ where
                 }
             };
 
+            #[cfg(feature = "verif-hooks")]
+            {
+                let mut args = vec![self.thread_id as u64];
+                args.extend(events.iter().take(num_events).map(|e| e.data()));
+                vhost::verif::hit("w.after_wait", &args);
+            }
             for event in events.iter().take(num_events) {
                 let evset = match EventSet::from_bits(event.events) {
                     Some(evset) => evset,
@@ -203,9 +211,13 @@ where
 
         if (device_event as usize) < self.vrings.len() {
             let vring = &self.vrings[device_event as usize];
+            #[cfg(feature = "verif-hooks")]
+            vhost::verif::hit("w.before_read", &[self.thread_id as u64, device_event as u64]);
             let enabled = vring
                 .read_kick()
                 .map_err(VringEpollError::HandleEventReadKick)?;
+            #[cfg(feature = "verif-hooks")]
+            vhost::verif::hit("w.after_read", &[self.thread_id as u64, device_event as u64, enabled as u64]);
 
             // If the vring is not enabled, it should not be processed.
             if !enabled {
@@ -213,9 +225,13 @@ where
             }
         }
 
+        #[cfg(feature = "verif-hooks")]
+        vhost::verif::hit("w.before_dispatch", &[self.thread_id as u64, device_event as u64]);
         self.backend
             .handle_event(device_event, evset, &self.vrings, self.thread_id)
             .map_err(VringEpollError::HandleEventBackendHandling)?;
+        #[cfg(feature = "verif-hooks")]
+        vhost::verif::hit("w.after_dispatch", &[self.thread_id as u64, device_event as u64]);
 
         Ok(false)
     }
